@@ -13,7 +13,7 @@
 (* model; those that mention only Parent's properties are declared on Parent in the odd models   *)
 (* (inherited invariants). WellTyped only selects candidates: the R phase drops what the real    *)
 (* code rejects and reports the model as run.                                                    *)
-EXTENDS Verif, ExprSchema, SequencesExt
+EXTENDS Verif, ExprSchema, SequencesExt, Json
 CONSTANTS Wide, BatchSize, NInst, StrLen
 
 MinOf(x, y) == IF x < y THEN x ELSE y
@@ -27,16 +27,16 @@ SubjectProps == <<Prop("xs", TList(TInt)), Prop("oxs", TOpt(TList(TInt))), Prop(
 ParentNames == {"i", "oi", "s", "os", "b"}
 
 \* ---- descriptions ---------------------------------------------------------------------------
-DescSuffixes == <<" holds.",
-              " must hold: the value shall be \"quoted\" here.",
-              " has a back\\slash and a 'single' quote.",
-              " requires that the first word of a rather long description of an invariant is a word, an article follows, and the text is wrapped into several literals as the generator does it.",
-              " has  two spaces, a {brace} and 100 %s.",
-              " ends with a quote\"",
-              " is a the an a the an a the an a the an a the an a the an a the an a the an a the an a the an end.",
-              " \\n is not a newline but \\\\ are two backslashes, and \ttab is a tab.">>
-Desc(owner, k) == owner \o " invariant " \o ToString(k) \o DescSuffixes[((k - 1) % Len(DescSuffixes)) + 1]
-WithDescs(owner, trees, off) == [k \in 1..Len(trees) |-> [e |-> trees[k], d |-> Desc(owner, off + k)]]
+\* The description shapes live in a data file (ASCII JSON with \u escapes) because a TLA+ source cannot carry
+\* the characters of interest: quotes, backslashes, braces, long texts for the wrapper, article runs, a tab, and
+\* typographic / zero-width spaces (not printable for Python, above 0xFF) and line-boundary characters
+\* (U+2028, U+2029, U+0085, U+001C). Run TLC with -Dfile.encoding=UTF-8.
+DescShapes == JsonDeserialize("VerifStrings.json").descriptions
+ShapeOf(k) == DescShapes[((k - 1) % Len(DescShapes)) + 1]
+Desc(owner, k) == (owner \o " invariant " \o ToString(k)) \o ShapeOf(k).text
+\* id: the identity of the invariant, the leading words of its description
+InvId(owner, k) == owner \o " invariant " \o ToString(k)
+WithDescs(owner, trees, off) == [k \in 1..Len(trees) |-> [e |-> trees[k], d |-> Desc(owner, off + k), ds |-> ShapeOf(off + k).name, id |-> InvId(owner, off + k)]]
 
 \* ---- pools ----------------------------------------------------------------------------------
 \* trees that index a list raise IndexError on many instances (which ends verify()): they get models of their own
@@ -89,11 +89,14 @@ Funcs(k) ==
      between |-> [kind |-> "transp", params |-> <<"x", "lo", "hi">>,
                   body |-> <<Assign("above", Cmp(">=", Name("x"), Name("lo"))), Assign("below", Cmp("<=", Add(Name("x"), IntC(0)), Name("hi"))),
                              Return(And(<<Name("above"), Name("below")>>))>>],
+     \* arithmetic nested on the right of a subtraction
+     gap |-> [kind |-> "transp", params |-> <<"x", "lo", "hi">>,
+              body |-> <<Assign("w", Sub(Name("hi"), Sub(Name("lo"), IntC(1)))), Return(Cmp(">=", Sub(Name("x"), Sub(Name("w"), Name("lo"))), IntC(0)))>>],
      all_small |-> [kind |-> "transp", params |-> <<"ns">>,
                     body |-> <<Return(QAll("n", Or(<<Cmp("<", Name("n"), IntC(2)), Cmp("==", Name("n"), IntC(3))>>), Name("ns")))>>]]
 Sigs == [is_abc |-> [params |-> <<TStr>>, ret |-> TBool], gt_zero |-> [params |-> <<TInt>>, ret |-> TBool],
          in_range |-> [params |-> <<TInt, TInt>>, ret |-> TBool], between |-> [params |-> <<TInt, TInt, TInt>>, ret |-> TBool],
-         all_small |-> [params |-> <<TList(TInt)>>, ret |-> TBool]]
+         gap |-> [params |-> <<TInt, TInt, TInt>>, ret |-> TBool], all_small |-> [params |-> <<TList(TInt)>>, ret |-> TBool]]
 
 \* ---- models -----------------------------------------------------------------------------------
 ModelOf(k, trees) ==
@@ -111,7 +114,7 @@ ModelOf(k, trees) ==
          vals |-> G0.vals, funcs |-> Funcs(k), sigs |-> Sigs]
 
 \* extra trees of interest to C08 that the pool may not contain (calls of the additional functions)
-ExtraTrees == <<Call("between", <<P("i"), IntC(0), IntC(1)>>), Call("all_small", <<P("xs")>>),
+ExtraTrees == <<Call("between", <<P("i"), IntC(0), IntC(1)>>), Call("all_small", <<P("xs")>>), Call("gap", <<P("i"), IntC(1), LenOf(P("xs"))>>),
                 Imp(IsNotNone(P("oxs")), Call("all_small", <<P("oxs")>>)), Not(Call("between", <<LenOf(P("s")), IntC(1), P("i")>>))>>
 \* accepted by the pinned code although they raise (known C07 findings): verification must raise exactly when they do
 RaisingTrees == <<Or(<<P("b"), Cmp("<", P("s"), IntC(0))>>), Imp(P("b"), Cmp(">", LenOf(P("oxs")), IntC(0))),
@@ -170,6 +173,7 @@ FnArgs(k) ==
      gt_zero |-> SetToSeq({<<x>> : x \in SmallInts}),
      in_range |-> SetToSeq({<<x, y>> : x \in SmallInts, y \in SmallInts}),
      between |-> SetToSeq({<<x, y, z>> : x \in SmallInts, y \in {IntV(0), IntV(1)}, z \in {IntV(0), IntV(2)}}),
+     gap |-> SetToSeq({<<x, y, z>> : x \in SmallInts, y \in {IntV(0), IntV(1), IntV(2)}, z \in {IntV(0), IntV(2)}}),
      all_small |-> [n \in 1..Len(IntLists) |-> <<IntLists[n]>>]]
 
 Cases == [k \in 1..NModels |-> [model |-> ModelOf(k, ModelTrees(k)), insts |-> Instances(k), fnargs |-> FnArgs(k)]]
